@@ -3,6 +3,7 @@
 From Coq Require Import ZArith NArith List Bool FMapPositive.
 Import ListNotations.
 Require Import Base Float.
+Require Lex.           (* parse.parse: a module file's text is parsed when it is first imported *)
 Require Utf Utf16.          (* RFC 3629 / UTF-16 / UTF-32, proved and compared with the implementation on their own (C16); used by the string codecs *)
 From Coq Require Import SpecFloat.
 Open Scope Z_scope.
@@ -542,6 +543,19 @@ Fixpoint peek_lits (l:list value) : Comp (option (list Z)) :=
   | [] => Ret (Some [])
   | VThunk t :: r => PeekLit t (fun a => match a with Some n => o <- peek_lits r ;; Ret (match o with Some ns => Some (n :: ns) | None => None end) | None => Ret None end)
   | _ :: _ => Ret None end.
+(* module._load_from_path: the registered module of that FILE, or - read, parse (exactly one expression), delay it in the EMPTY environment,
+   register it, hand the delayed expression back unevaluated (whoever needs it evaluates it, once: it is a delayed expression like any other) *)
+Definition empty_env : env := {| funs := []; args := [] |}.
+Definition load_from_path (sp:span) (path:list N) : Comp value :=
+  World (WLoad sp path) (fun r =>
+    match r with
+    | VStr text =>
+        match Lex.parse_text text with
+        | inr (_, psp) => Raise (mkerr c_syntax psp)
+        | inl [a] => Alloc a empty_env (fun t => World (WRegister path t) (fun _ => Ret (VThunk t)))
+        | inl [] => raise c_value sp
+        | inl (a :: _) => Raise (mkerr c_value (ast_span a)) end
+    | v => Ret v end).
 Definition bi_import (sp:span) (argv:list value) : Comp value :=
   check_min_arity sp (length argv) 1 ;;;
   lits <- peek_lits argv ;;
@@ -559,7 +573,12 @@ Definition bi_import (sp:span) (argv:list value) : Comp value :=
                   else if n =? m_math then (if existsb (Z.eqb k) [-9; -12; -23] then Ret (VFun (FModule [5; m_math; k])) else raise c_unmodelled sp) else raise c_notfound sp
       | _ => match path with n :: _ => if n =? m_math then raise c_unmodelled sp else raise c_notfound sp | [] => raise c_unmodelled sp end
       end
-  | _ => raise c_unmodelled sp
+  | Some ls => World (WFind sp ls) (fun r => match r with VStr p => load_from_path sp p | _ => raise c_unmodelled sp end)
+  | None =>
+      check_arity sp (length argv) [1%nat] ;;;
+      match argv with
+      | [a] => v <- force a ;; check_type sp [v] is_str ;;; match v with VStr p => load_from_path sp p | _ => raise c_type sp end
+      | _ => raise c_type sp end
   end.
 
 (* ---------- modules: bitwise and the integer codecs ---------- *)
